@@ -113,3 +113,103 @@ func VerifC16_Nesting() {
 	}
 	verifReach("end")
 }
+
+func init() {
+	verifHarnesses["VerifC16_SharedSlice"] = VerifC16_SharedSlice
+	verifHarnesses["VerifC16_ErrorOnly"] = VerifC16_ErrorOnly
+}
+
+// Two methods built from the SAME variadic slice (with or without spare
+// capacity) and different middleware added afterwards: each call passes through
+// exactly its own chain.
+func VerifC16_SharedSlice() {
+	var trace []int
+	spare := verifChoice(3)
+	shared := make([]ServiceMiddleware, 1, 1+spare)
+	shared[0] = verifMiddleware(verifMwSpec{id: 1}, &trace)
+	h1, h2 := &verifPingHandler{outcome: verifOutcome(verifOutValue, 0)}, &verifPingHandler{outcome: verifOutcome(verifOutValue, 0)}
+	provA := NewFServiceProvider(nil, nil, verifMiddleware(verifMwSpec{id: 101}, &trace))
+	provB := NewFServiceProvider(nil, nil, verifMiddleware(verifMwSpec{id: 201}, &trace))
+	withProviders := verifChoice(2) == 1
+	// what two generated constructors, called one after the other, do with the caller's slice
+	mwA := shared
+	if withProviders {
+		mwA = append(shared, provA.GetMiddleware()...)
+		verifReach("with-providers")
+	}
+	m1 := NewMethod(h1, h1.Ping, "Ping", mwA)
+	mwB := shared
+	if withProviders {
+		mwB = append(shared, provB.GetMiddleware()...)
+	}
+	m2 := NewMethod(h2, h2.Ping, "Ping", mwB)
+	later := verifChoice(2) == 1
+	if later {
+		m1.AddMiddleware(verifMiddleware(verifMwSpec{id: 11}, &trace))
+		m2.AddMiddleware(verifMiddleware(verifMwSpec{id: 22}, &trace))
+		verifReach("added-later")
+	}
+	check := func(m *Method, h *verifPingHandler, own, prov int) {
+		trace = nil
+		res := m.Invoke([]interface{}{NewFContext("c"), "x"})
+		verifAssert(res.Error() == nil && h.calls == 1, "the target is invoked exactly once")
+		var want []int
+		if later {
+			want = append(want, own)
+		}
+		if withProviders {
+			want = append(want, prov)
+		}
+		want = append(want, 1)
+		verifAssert(len(trace) == 2*len(want), "each call passes through exactly its own middleware")
+		for i, id := range want {
+			verifAssert(trace[i] == id && trace[len(trace)-1-i] == -id, "in the declared order, untouched by the other method's middleware")
+		}
+	}
+	check(m1, h1, 11, 101)
+	check(m2, h2, 22, 201)
+	verifReach("end")
+}
+
+// Methods whose only result is an error (void / oneway / publish / subscriber
+// callbacks): a middleware that rewrites the error of one call must not leak
+// into any other call.
+func VerifC16_ErrorOnly() {
+	var trace []int
+	denied := verifErr("denied")
+	setErr := func(next InvocationHandler) InvocationHandler {
+		return func(service reflect.Value, method reflect.Method, args Arguments) Results {
+			res := next(service, method, args)
+			res.SetError(denied)
+			return res
+		}
+	}
+	h := &verifPingHandler{outcome: verifOutcome(verifOutValue, 0)}
+	n := 1 + verifChoice(2)
+	var mws []ServiceMiddleware
+	for i := 0; i < n-1; i++ {
+		mws = append(mws, verifMiddleware(verifMwSpec{id: 1 + i}, &trace))
+	}
+	mws = append(mws, setErr)
+	rewriting := NewMethod(h, h.Fire, "Fire", mws)
+	plain := NewMethod(h, h.Fire, "Fire", nil)
+	observed := NewMethod(h, h.Fire, "Fire", []ServiceMiddleware{verifMiddleware(verifMwSpec{id: 9}, &trace)})
+	order := verifChoice(2)
+	if order == 0 {
+		r0 := plain.Invoke([]interface{}{NewFContext("c"), "a"})
+		verifAssert(len(r0) == 1 && r0.Error() == nil, "a successful error-only call reports no error")
+	}
+	r1 := rewriting.Invoke([]interface{}{NewFContext("c"), "a"})
+	verifAssert(r1.Error() == denied, "the caller sees the error the middleware set")
+	r2 := plain.Invoke([]interface{}{NewFContext("c"), "b"})
+	verifAssert(len(r2) == 1 && r2.Error() == nil, "a later successful call on another method reports no error")
+	r3 := observed.Invoke([]interface{}{NewFContext("c"), "c"})
+	verifAssert(len(r3) == 1 && r3.Error() == nil, "also through an observing middleware")
+	verifAssert(h.calls == 3+1-order, "every call reached the target once")
+	verifReach("end")
+}
+
+type verifErrT struct{ s string }
+
+func (e *verifErrT) Error() string { return e.s }
+func verifErr(s string) error    { return &verifErrT{s} }
